@@ -28,7 +28,7 @@ SEC = 1_000_000_000
 
 
 def gen_case(rng):
-    family = rng.choice(['chain', 'tee', 'rejoin'])
+    family = rng.choice(['chain', 'tee', 'rejoin', 'join'])
     topo = pipeline.gen_topology(rng, family=family, c03=True, nframes=10**9)
     for nd in topo['nodes']:        # keep the stream simple and endless: no skips, modest work
         nd['beh'].pop('skip', None); nd['beh'].pop('empty', None)
